@@ -244,7 +244,7 @@ pub fn bounds(tier: Tier) -> Bounds {
             topo_nodes: n.unwrap_or(3),
             topo_classes: 3,
             k3: true,
-            large: false,
+            large: true,
         },
         Tier::Thorough => Bounds {
             // binary sweeps (C01, C03): forests of up to 5 nodes (20 M cases, ~9 min); the XML
